@@ -2,14 +2,15 @@
     models of Go's decoders (Enc/GoDecDelta.v).
 
     [dec64] is [DeltaBP.dec] with varints limited to 10 bytes / 64 bits (what
-    the format's 64-bit integers need).  On EVERY well-formed byte string
+    the format's 64-bit integers need) and mini-block bit widths limited to
+    the width of the type.  On EVERY well-formed byte string
     that [dec64] accepts and whose header passes Go's checks (block size a
     multiple of 128 and at most 65536, values per mini-block a multiple of
     32, at most MaxInt32 values, first value within int32 for 32-bit columns)
     Go's decodeInt32 / decodeInt64 return the same values and the same
     remaining input ([go_dbp_refines]): any block size and mini-block count
-    within those limits, any min delta, any bit widths (also wider than the
-    type), arbitrary widths for unneeded mini-blocks.  The encoder's output is
+    within those limits, any min delta, any bit widths up to the width of the
+    type, arbitrary widths for unneeded mini-blocks.  The encoder's output is
     such a string ([dec64_enc], [go_header_enc]); hence Go's decoders invert
     Go's encoders ([go_dbp_roundtrip], and DELTA_LENGTH_BYTE_ARRAY,
     DELTA_BYTE_ARRAY below). *)
@@ -22,6 +23,51 @@ Import ListNotations.
 Open Scope N_scope.
 
 (** * the specification decoder with 64-bit varints *)
+
+(** [DeltaBP.dec_mbs] rejecting a needed mini-block wider than the type *)
+Fixpoint dec_mbs_w (k : N) (vpm : nat) (m : N) (ws : list N) (b : bytes) (remaining : nat) (prev : N)
+  : option (list N * nat * N * bytes) :=
+  match ws with
+  | [] => Some ([], remaining, prev, b)
+  | w :: ws' =>
+      if (remaining =? 0)%nat then Some ([], remaining, prev, b)
+      else if k <? w then None
+      else
+        match DeltaBP.take_bytes (N.to_nat (w * N.of_nat vpm / 8)) b with
+        | None => None
+        | Some (mb, b') =>
+            let us := firstn (Nat.min vpm remaining) (unpack_bytes w vpm mb) in
+            let '(xs, p) := recon k prev m us in
+            match dec_mbs_w k vpm m ws' b' (remaining - length us) p with
+            | None => None
+            | Some (ys, rem', p', b'') => Some (xs ++ ys, rem', p', b'')
+            end
+        end
+  end.
+
+Lemma dec_mbs_w_sound k vpm m : forall ws b rem prev r,
+  dec_mbs_w k vpm m ws b rem prev = Some r -> dec_mbs k vpm m ws b rem prev = Some r.
+Proof.
+  induction ws as [|w ws IH]; intros b rem prev r H; [exact H|].
+  cbn [dec_mbs_w] in H. cbn [dec_mbs].
+  destruct (rem =? 0)%nat; [exact H|].
+  destruct (k <? w); [discriminate|].
+  destruct (DeltaBP.take_bytes _ b) as [[mb b1]|]; [|discriminate].
+  destruct (recon k prev m _) as [xs p].
+  destruct (dec_mbs_w k vpm m ws b1 _ p) as [[[[ys r2] p2] b2]|] eqn:E; [|discriminate].
+  now rewrite (IH _ _ _ _ E).
+Qed.
+
+Lemma dec_mbs_w_eq k vpm m : forall ws b rem prev,
+  Forall (fun w => w <= k) ws -> dec_mbs_w k vpm m ws b rem prev = dec_mbs k vpm m ws b rem prev.
+Proof.
+  induction ws as [|w ws IH]; intros b rem prev Hws; [reflexivity|].
+  inversion Hws; subst. cbn [dec_mbs_w dec_mbs].
+  destruct (rem =? 0)%nat; [reflexivity|].
+  destruct (N.ltb_spec k w); [lia|].
+  destruct (DeltaBP.take_bytes _ b) as [[mb b1]|]; [|reflexivity].
+  destruct (recon k prev m _) as [xs p]. now rewrite IH.
+Qed.
 
 Fixpoint dec_blocks64 (fuel : nat) (k : N) (vpm nmb : nat) (b : bytes) (remaining : nat) (prev : N)
   : option (list N * bytes) :=
@@ -36,7 +82,7 @@ Fixpoint dec_blocks64 (fuel : nat) (k : N) (vpm nmb : nat) (b : bytes) (remainin
             match DeltaBP.take_bytes nmb b1 with
             | None => None
             | Some (ws, b2) =>
-                match dec_mbs k vpm (wrapZ k mz) ws b2 remaining prev with
+                match dec_mbs_w k vpm (wrapZ k mz) ws b2 remaining prev with
                 | None => None
                 | Some (xs, rem', p', b3) =>
                     match dec_blocks64 f k vpm nmb b3 rem' p' with
@@ -84,7 +130,8 @@ Proof.
   destruct (go_varint b) as [[mz b1]|] eqn:E; [|discriminate].
   rewrite (go_varint_spec _ _ E).
   destruct (DeltaBP.take_bytes nmb b1) as [[ws b2]|]; [|discriminate].
-  destruct (dec_mbs k vpm (wrapZ k mz) ws b2 rem prev) as [[[[xs rem'] p'] b3]|]; [|discriminate].
+  destruct (dec_mbs_w k vpm (wrapZ k mz) ws b2 rem prev) as [[[[xs rem'] p'] b3]|] eqn:E1; [|discriminate].
+  rewrite (dec_mbs_w_sound _ _ _ _ _ _ _ _ E1).
   destruct (dec_blocks64 f k vpm nmb b3 rem' p') as [[ys b4]|] eqn:E2; [|discriminate].
   now rewrite (IH _ _ _ _ E2).
 Qed.
@@ -166,14 +213,15 @@ Qed.
 
 Lemma mbs_refines k vpm m (Hv8 : (Nat.divide 8 vpm)) : forall ws b rem prev xs rem' p' b',
   wf_bytes b -> (0 < rem)%nat ->
-  dec_mbs k vpm m ws b rem prev = Some (xs, rem', p', b') ->
-  exists us wm,
-    go_dbp_miniblocks k (N.of_nat vpm) ws b (N.of_nat rem) = GOk (us, b', N.of_nat rem', wm)
+  dec_mbs_w k vpm m ws b rem prev = Some (xs, rem', p', b') ->
+  exists us,
+    go_dbp_miniblocks k (N.of_nat vpm) ws b (N.of_nat rem) = GOk (us, b', N.of_nat rem')
     /\ recon k prev m us = (xs, p').
 Proof.
-  induction ws as [|w ws IH]; intros b rem prev xs rem' p' b' Hwf Hrem H; cbn [dec_mbs] in H.
-  - inversion H; subst. exists [], 0. split; reflexivity.
+  induction ws as [|w ws IH]; intros b rem prev xs rem' p' b' Hwf Hrem H; cbn [dec_mbs_w] in H.
+  - inversion H; subst. exists []. split; reflexivity.
   - destruct (Nat.eqb_spec rem 0) as [E|_]; [lia|].
+    destruct (N.ltb_spec k w) as [|Hkw]; [discriminate|].
     destruct (DeltaBP.take_bytes _ b) as [[mb b1]|] eqn:Et; [|discriminate].
     apply dbp_take_bytes_some in Et. destruct Et as (Hle & -> & ->).
     set (size := N.to_nat (w * N.of_nat vpm / 8)) in *.
@@ -183,10 +231,11 @@ Proof.
     { subst us_s. rewrite firstn_length. unfold unpack_bytes. rewrite unpack_length. lia. }
     destruct (recon k prev m us_s) as [xs1 p1] eqn:Er1.
     rewrite Hlen in H.
-    destruct (dec_mbs k vpm m ws (skipn size b) (rem - n) p1) as [[[[ys r2] p2] b2]|] eqn:Er; [|discriminate].
+    destruct (dec_mbs_w k vpm m ws (skipn size b) (rem - n) p1) as [[[[ys r2] p2] b2]|] eqn:Er; [|discriminate].
     inversion H; subst xs rem' p' b'. clear H.
     (* what Go unpacks for this mini-block *)
     cbn [go_dbp_miniblocks].
+    destruct (N.ltb_spec k w) as [|_]; [lia|].
     replace (N.of_nat vpm * w) with (w * N.of_nat vpm) by lia. fold size.
     assert (Emin : N.min (N.of_nat vpm) (N.of_nat rem) = N.of_nat n) by lia.
     rewrite Emin, Nat2N.id.
@@ -228,13 +277,13 @@ Proof.
     + (* the last needed mini-block: Go breaks, the specification loop stops *)
       rewrite E0 in *. cbn [N.of_nat N.eqb].
       assert (Ey : ys = [] /\ r2 = 0%nat /\ p2 = p1 /\ b2 = skipn size b).
-      { destruct ws; cbn [dec_mbs] in Er; inversion Er; auto. }
+      { destruct ws; cbn [dec_mbs_w] in Er; inversion Er; auto. }
       destruct Ey as (-> & -> & -> & ->).
-      exists vals, w. split; [reflexivity|]. rewrite app_nil_r. exact Evals.
+      exists vals. split; [reflexivity|]. rewrite app_nil_r. exact Evals.
     + destruct (N.eqb_spec (N.of_nat (rem - n)) 0) as [E|_]; [lia|].
       assert (Hpos : (0 < rem - n)%nat) by lia.
-      destruct (IH _ _ _ _ _ _ _ (Forall_skipn _ size b Hwf) Hpos Er) as (us' & wm & Hgo & Hrec).
-      rewrite Hgo. cbn [gbind]. exists (vals ++ us'), (N.max w wm). split; [reflexivity|].
+      destruct (IH _ _ _ _ _ _ _ (Forall_skipn _ size b Hwf) Hpos Er) as (us' & Hgo & Hrec).
+      rewrite Hgo. cbn [gbind]. exists (vals ++ us'). split; [reflexivity|].
       rewrite recon_app, Evals. cbn [fst snd]. rewrite Hrec. reflexivity.
 Qed.
 
@@ -254,16 +303,17 @@ Proof. intros H ->. discriminate. Qed.
 Lemma blocks_refines k vpm nmb (Hv8 : Nat.divide 8 vpm) : forall fs b rem prev xs rest,
   dec_blocks64 fs k vpm nmb b rem prev = Some (xs, rest) -> wf_bytes b ->
   forall fg, (length b <= fg)%nat ->
-  exists wm, go_dbp_blocks fg k (N.of_nat vpm) (N.of_nat nmb) b (N.of_nat rem) prev = GOk (xs, rest, wm).
+  go_dbp_blocks fg k (N.of_nat vpm) (N.of_nat nmb) b (N.of_nat rem) prev = GOk (xs, rest).
 Proof.
   induction fs as [|fs IH]; intros b rem prev xs rest H Hwf fg Hfg.
   - cbn [dec_blocks64] in H. destruct (Nat.eqb_spec rem 0) as [->|_]; [|discriminate].
-    inversion H; subst. exists 0. destruct fg; cbn [go_dbp_blocks N.of_nat N.eqb orb]; reflexivity.
+    inversion H; subst. destruct fg; cbn [go_dbp_blocks N.of_nat N.eqb orb]; reflexivity.
   - cbn [dec_blocks64] in H. destruct (Nat.eqb_spec rem 0) as [->|Hrem].
-    + inversion H; subst. exists 0. destruct fg; cbn [go_dbp_blocks N.of_nat N.eqb orb]; reflexivity.
+    + inversion H; subst. destruct fg; cbn [go_dbp_blocks N.of_nat N.eqb orb]; reflexivity.
     + destruct (go_varint b) as [[mz b1]|] eqn:Ev; [|discriminate].
       destruct (DeltaBP.take_bytes nmb b1) as [[ws b2]|] eqn:Et; [|discriminate].
-      destruct (dec_mbs k vpm (wrapZ k mz) ws b2 rem prev) as [[[[xs1 rem1] p1] b3]|] eqn:Em; [|discriminate].
+      destruct (dec_mbs_w k vpm (wrapZ k mz) ws b2 rem prev) as [[[[xs1 rem1] p1] b3]|] eqn:Emw; [|discriminate].
+      pose proof (dec_mbs_w_sound _ _ _ _ _ _ _ _ Emw) as Em.
       destruct (dec_blocks64 fs k vpm nmb b3 rem1 p1) as [[ys b4]|] eqn:Eb; [|discriminate].
       inversion H; subst xs rest. clear H.
       pose proof (go_varint_lt _ _ _ Ev) as Hl1.
@@ -273,7 +323,7 @@ Proof.
       pose proof (dec_mbs_suffix _ _ _ _ _ _ _ _ _ _ _ Em) as Hl3.
       assert (Hl2 : (length b2 <= length b1)%nat) by (subst b2; rewrite skipn_length; lia).
       assert (Hpos : (0 < rem)%nat) by lia.
-      destruct (mbs_refines k vpm (wrapZ k mz) Hv8 _ _ _ _ _ _ _ _ Hwf2 Hpos Em) as (us & wm & Hgo & Hrec).
+      destruct (mbs_refines k vpm (wrapZ k mz) Hv8 _ _ _ _ _ _ _ _ Hwf2 Hpos Emw) as (us & Hgo & Hrec).
       destruct fg as [|fg]; [lia|].
       cbn [go_dbp_blocks].
       destruct (N.eqb_spec (N.of_nat rem) 0) as [E|_]; [lia|].
@@ -291,8 +341,7 @@ Proof.
           destruct (dec_mbs k vpm _ ws _ _ pa) as [[[[ya ra] pb] bb]|] eqn:Er; [|discriminate].
           inversion Em; subst. eapply IHw; [exact Er|]. now apply Forall_skipn. }
       assert (Hfg3 : (length b3 <= fg)%nat) by lia.
-      destruct (IH _ _ _ _ _ Eb Hwf3 fg Hfg3) as (wm' & Hgo').
-      rewrite Hgo'. cbn [gbind]. eexists. reflexivity.
+      rewrite (IH _ _ _ _ _ Eb Hwf3 fg Hfg3). reflexivity.
 Qed.
 
 (** * the whole section *)
@@ -387,7 +436,7 @@ Proof.
   destruct h as [[[[bs nmb] total] first] s]. cbn [fst snd] in Hfirst.
   destruct (go_header_facts _ _ _ _ _ _ Hwf Hh)
     as (ubs & unmb & utotal & b1 & b2 & b3 & E1 & E2 & E3 & E4 & -> & -> & -> & Hn & Ht & Hv8 & Hws).
-  unfold go_dbp_dec, go_dbp_dec_w. rewrite Hh. cbn [gbind].
+  unfold go_dbp_dec. rewrite Hh. cbn [gbind].
   unfold dec64 in Hd. rewrite E1, E2, E3, E4 in Hd.
   destruct (N.eqb_spec utotal 0) as [->|Ht0].
   - inversion Hd; subst. reflexivity.
@@ -400,7 +449,7 @@ Proof.
     rewrite Hrange.
     destruct (dec_blocks64 _ _ _ _ _ _ _) as [[ps rest']|] eqn:Eb; [|discriminate].
     inversion Hd; subst xs rest'. clear Hd.
-    destruct (blocks_refines k _ _ Hv8 _ _ _ _ _ _ Eb Hws (length s) (le_n _)) as (wm & Hgo).
+    pose proof (blocks_refines k _ _ Hv8 _ _ _ _ _ _ Eb Hws (length s) (le_n _)) as Hgo.
     rewrite <- N2Z.inj_quot, N2Z.id, !N2Z.id.
     rewrite !N2Nat.id in Hgo.
     replace (N.of_nat (N.to_nat utotal - 1)) with (utotal - 1) in Hgo by lia.
@@ -418,6 +467,43 @@ Proof.
   rewrite enc_block_unfold, <- !app_assoc. apply go_varint64_roundtrip.
   apply (in_sint_64_of_k k _ Hk). apply sintZ_in_range; [destruct Hk; subst; lia|].
   apply block_min_lt, block_delta_lt.
+Qed.
+
+(** the bit widths the encoder writes are at most the width of the type *)
+Lemma fold_max_le (l : list N) (bnd : N) :
+  Forall (fun x => x <= bnd) l -> forall a, a <= bnd -> fold_left N.max l a <= bnd.
+Proof. induction 1 as [|x l Hx Hl IH]; intros a Ha; cbn [fold_left]; [exact Ha|]. apply IH. lia. Qed.
+
+Lemma width_of_le k g : Forall (fun v => v < 2 ^ k) g -> width_of g <= k.
+Proof.
+  intros H. unfold width_of. apply fold_max_le; [|lia].
+  apply Forall_forall. intros x Hx. apply in_map_iff in Hx. destruct Hx as (v & <- & Hv).
+  apply bitlen_mono_bound. rewrite Forall_forall in H. now apply H.
+Qed.
+
+Lemma chunks_forall {A} (P : A -> Prop) n : forall fuel (l : list A),
+  Forall P l -> Forall (Forall P) (chunks fuel n l).
+Proof.
+  induction fuel as [|f IH]; intros l Hl; cbn [chunks]; [constructor|].
+  destruct l as [|a l'] eqn:E; [constructor|]. rewrite <- E in *.
+  constructor; [now apply Forall_firstn|]. apply IH. now apply Forall_skipn.
+Qed.
+
+Lemma cleared_block_lt k last chunk : Forall (fun v => v < 2 ^ k) (cleared_block k last chunk).
+Proof.
+  unfold cleared_block, pad_to. apply Forall_app. split.
+  - apply Forall_firstn. apply Forall_forall. intros x Hx. apply in_map_iff in Hx.
+    destruct Hx as (d & <- & _). apply subk_lt.
+  - apply Forall_forall. intros x Hx. apply repeat_spec in Hx. subst x. apply pow2_pos.
+Qed.
+
+Lemma enc_widths_le k last chunk :
+  Forall (fun w => w <= k)
+    (map width_of (chunks num_mini_blocks mini_block_size (cleared_block k last chunk))).
+Proof.
+  pose proof (chunks_forall _ mini_block_size num_mini_blocks _ (cleared_block_lt k last chunk)) as Hg.
+  apply Forall_forall. intros x Hx. apply in_map_iff in Hx. destruct Hx as (g & <- & Hin).
+  rewrite Forall_forall in Hg. apply width_of_le. now apply Hg.
 Qed.
 
 Lemma dec_blocks64_ok k (Hk : k = 32 \/ k = 64) : forall fuel rest_vals last tail,
@@ -454,6 +540,7 @@ Proof.
       destruct (chunks_exact mini_block_size mini_block_pos num_mini_blocks _ Hcbl) as (_ & _ & Hl). exact Hl. }
     rewrite <- Hwl at 1. rewrite DeltaBPProofs.take_bytes_app.
     rewrite wrapZ_sintZ by (destruct Hk; subst; lia || exact Hm).
+    rewrite dec_mbs_w_eq by (apply enc_widths_le).
     rewrite Hmb.
     replace (length vals - length chunk)%nat with (length (skipn block_size vals))
       by (rewrite skipn_length; lia).
@@ -545,25 +632,6 @@ Proof.
 Qed.
 
 (** every byte the encoder writes is a byte *)
-Lemma fold_max_le (l : list N) (bnd : N) :
-  Forall (fun x => x <= bnd) l -> forall a, a <= bnd -> fold_left N.max l a <= bnd.
-Proof. induction 1 as [|x l Hx Hl IH]; intros a Ha; cbn [fold_left]; [exact Ha|]. apply IH. lia. Qed.
-
-Lemma width_of_le k g : Forall (fun v => v < 2 ^ k) g -> width_of g <= k.
-Proof.
-  intros H. unfold width_of. apply fold_max_le; [|lia].
-  apply Forall_forall. intros x Hx. apply in_map_iff in Hx. destruct Hx as (v & <- & Hv).
-  apply bitlen_mono_bound. rewrite Forall_forall in H. now apply H.
-Qed.
-
-Lemma chunks_forall {A} (P : A -> Prop) n : forall fuel (l : list A),
-  Forall P l -> Forall (Forall P) (chunks fuel n l).
-Proof.
-  induction fuel as [|f IH]; intros l Hl; cbn [chunks]; [constructor|].
-  destruct l as [|a l'] eqn:E; [constructor|]. rewrite <- E in *.
-  constructor; [now apply Forall_firstn|]. apply IH. now apply Forall_skipn.
-Qed.
-
 Lemma concat_wf (ls : list bytes) : Forall wf_bytes ls -> wf_bytes (concat ls).
 Proof.
   induction 1 as [|l ls Hl Hls IH]; [constructor|]. cbn [concat]. apply wf_bytes_app. split; assumption.
@@ -737,6 +805,12 @@ Qed.
 Example go_dbp_truncated_miniblock_rejected :
   go_dbp_dec 32 [128; 1; 4; 3; 1; 1; 2; 0; 0; 0] = GErr.
 Proof. vm_compute. reflexivity. Qed.
+
+(** ... and (since 15954b9) a needed mini-block wider than the type *)
+Example go_dbp_wide_width_rejected :
+  go_dbp_dec 32 [128; 1; 4; 2; 0; 1; 33; 0; 0; 0] = GErr
+  /\ go_dbp_dec 64 [128; 1; 4; 2; 0; 1; 65; 0; 0; 0] = GErr.
+Proof. split; vm_compute; reflexivity. Qed.
 
 (** Go's header checks are stricter than the format: a block size that is not
     a multiple of 128 is accepted by the specification decoder *)
